@@ -48,6 +48,43 @@ Theorem C20_wrong_passphrase_kdf_error :
 Proof. exact wrong_passphrase_kdf_error. Qed.
 Print Assumptions C20_wrong_passphrase_kdf_error.
 
+(* 1b/2b. The two other formats DecryptKey accepts (EncryptKey never writes them):
+   PBKDF2 v3 and scrypt version-1 (AES-CBC under Keccak(dk[:16])[:16]). *)
+Theorem C20_roundtrip_pbkdf2 :
+  forall kdf aes_ctr aes_cbc_dec H pub_addr (kb addr id auth salt iv : bytes) (c : Z) (dk ek mk ct : bytes),
+    (forall k i x y, aes_ctr k i x = POk y -> aes_ctr k i y = POk x) ->
+    kdf (KPbkdf2 c) auth salt 32%Z = POk dk -> slice 0 16 dk = Some ek -> slice 16 32 dk = Some mk ->
+    aes_ctr ek iv kb = POk ct ->
+    decrypt_key kdf aes_ctr aes_cbc_dec H pub_addr (v3_pbkdf2_file addr id ct iv (H (mk ++ ct)) salt c) auth =
+      Ok (kb, pub_addr kb).
+Proof. exact roundtrip_pbkdf2. Qed.
+Print Assumptions C20_roundtrip_pbkdf2.
+
+Theorem C20_roundtrip_v1 :
+  forall kdf aes_ctr aes_cbc_dec H pub_addr (kb addr id cipher auth salt iv : bytes) (n r p : Z) (dk dk16 mk ct : bytes),
+    kdf (KScrypt n r p) auth salt 32%Z = POk dk -> slice 0 16 dk = Some dk16 -> slice 16 32 dk = Some mk ->
+    aes_cbc_dec (firstn 16 (H dk16)) iv ct = POk kb ->
+    decrypt_key kdf aes_ctr aes_cbc_dec H pub_addr (v1_scrypt_file addr id cipher ct iv (H (mk ++ ct)) salt n r p) auth =
+      Ok (kb, pub_addr kb).
+Proof. exact roundtrip_v1. Qed.
+Print Assumptions C20_roundtrip_v1.
+
+Theorem C20_wrong_passphrase_fails_pbkdf2 :
+  forall kdf aes_ctr aes_cbc_dec H pub_addr (addr id auth' salt iv : bytes) (c : Z) (ct mk dk' mk' : bytes),
+    kdf (KPbkdf2 c) auth' salt 32%Z = POk dk' -> slice 16 32 dk' = Some mk' -> mk' <> mk ->
+    decrypt_key kdf aes_ctr aes_cbc_dec H pub_addr (v3_pbkdf2_file addr id ct iv (H (mk ++ ct)) salt c) auth' = Err \/
+    collision H (mk' ++ ct) (mk ++ ct).
+Proof. exact wrong_passphrase_fails_pbkdf2. Qed.
+Print Assumptions C20_wrong_passphrase_fails_pbkdf2.
+
+Theorem C20_wrong_passphrase_fails_v1 :
+  forall kdf aes_ctr aes_cbc_dec H pub_addr (addr id cipher auth' salt iv : bytes) (n r p : Z) (ct mk dk' mk' : bytes),
+    kdf (KScrypt n r p) auth' salt 32%Z = POk dk' -> slice 16 32 dk' = Some mk' -> mk' <> mk ->
+    decrypt_key kdf aes_ctr aes_cbc_dec H pub_addr (v1_scrypt_file addr id cipher ct iv (H (mk ++ ct)) salt n r p) auth' = Err \/
+    collision H (mk' ++ ct) (mk ++ ct).
+Proof. exact wrong_passphrase_fails_v1. Qed.
+Print Assumptions C20_wrong_passphrase_fails_v1.
+
 (* 3. Tampering, through unlocking (GetKey): for ANY document found in place of
       the stored one (so for any modification of ciphertext, MAC, salt, IV, KDF
       parameters, or anything else) and any passphrase, GetKey for the account of
@@ -89,6 +126,22 @@ Theorem C20_decrypt_iv_tamper_refuted :
     w_get_key a w_file w_pass = Ok (k, a) /\ w_get_key a w_file_iv w_pass = Err.
 Proof. exact decrypt_iv_witness. Qed.
 Print Assumptions C20_decrypt_iv_tamper_refuted.
+
+(* … and false for the version member (the MAC covers neither version nor cipher):
+   a file written by EncryptKey whose version is changed to "1" passes the MAC check
+   and its CTR ciphertext is AES-CBC-decrypted; whenever aesCBCDecrypt accepts it
+   (valid PKCS7 padding: about 1 file in 256; the harness exhibits one on every run)
+   bare DecryptKey returns those bytes as the key.  GetKey is covered by 3. *)
+Theorem C20_decrypt_version_tamper_refuted :
+  forall kdf aes_ctr aes_cbc_dec H pub_addr (addr id auth salt iv : bytes) (n p : Z) (dk dk16 mk ct kb' : bytes),
+    kdf (KScrypt n 8 p) auth salt 32%Z = POk dk -> slice 0 16 dk = Some dk16 -> slice 16 32 dk = Some mk ->
+    aes_cbc_dec (firstn 16 (H dk16)) iv ct = POk kb' ->
+    let f := v3_scrypt_file addr id ct iv (H (mk ++ ct)) salt n p in
+    let f' := v1_scrypt_file addr id ascii_aes_128_ctr ct iv (H (mk ++ ct)) salt n 8 p in
+    same_but_version f f' /\
+    decrypt_key kdf aes_ctr aes_cbc_dec H pub_addr f' auth = Ok (kb', pub_addr kb').
+Proof. exact version_downgrade. Qed.
+Print Assumptions C20_decrypt_version_tamper_refuted.
 
 (* "DecryptKey returns an error on a malformed file" (never panics) is false:
    a document without kdfparams.salt panics in getKDFKey whatever the primitives. *)
